@@ -38,7 +38,10 @@ def run_shards(prop, specs, shard_timeout, workers=None):
     env["PYTHONPATH"] = VERIF_DIR + os.pathsep + REPO
     env["VERIF_REPO"] = REPO
     env["SSEPY_VERIF"] = "1"
-    env.setdefault("PYTHONHASHSEED", "0")
+    # str/bytes hashing (and with it set / dict-of-bytes iteration order inside the code under test) varies from
+    # shard to shard, reproducibly: derived from the run seed and the shard number unless the caller pinned it;
+    # every violation records the value its shard ran with and --replay re-uses it
+    pinned_hashseed = os.environ.get("PYTHONHASHSEED")
     env["PYTHONDONTWRITEBYTECODE"] = "1"
     pending = list(enumerate(specs))
     running = {}
@@ -52,9 +55,15 @@ def run_shards(prop, specs, shard_timeout, workers=None):
                 with open(spec_path, "w") as f:
                     json.dump(spec, f)
                 errf = open(err_path, "wb")
+                if pinned_hashseed is not None:
+                    hs = pinned_hashseed
+                elif "replay" in spec and isinstance(spec["replay"], dict) and "pythonhashseed" in spec["replay"]:
+                    hs = str(spec["replay"]["pythonhashseed"])
+                else:
+                    hs = str((int(spec.get("seed", 0)) * 1000003 + i * 7919) % 4294967291)
                 p = subprocess.Popen([PYTHON, "-u", "-B", "-m", "vlib.worker", prop, spec_path, out_path],
-                                     cwd=VERIF_DIR, env=env, stdout=errf, stderr=subprocess.STDOUT,
-                                     start_new_session=True)
+                                     cwd=VERIF_DIR, env=dict(env, PYTHONHASHSEED=hs), stdout=errf,
+                                     stderr=subprocess.STDOUT, start_new_session=True)
                 running[i] = (p, time.monotonic(), out_path, err_path, errf, spec)
             time.sleep(0.05)
             for i in list(running):
